@@ -146,6 +146,9 @@ class ConvexPolygon(GeoBody):
             raise ValueError(
                 "Cannot build a polygon with number of points smaller than 3"
             )
+        line = Line(self.points[0], self.points[1])
+        if all(point in line for point in self.points[2:]):
+            raise ValueError("Cannot build a polygon with all the points on a line")
         if reverse:
             self.plane = -Plane(self.points[0], self.points[1], self.points[2])
         else:
